@@ -174,6 +174,7 @@ def w_explore(ctx: core.Ctx, arg):
     mdib_file = arg['mdib_file']
     world = World(mdib_file, role_provider=False, async_mgr=arg.get('async_mgr', False))
     consumer, _ = world.add_consumer(with_mdib=False)
+    consumer2, _ = world.add_consumer(with_mdib=False)   # a second client whose complete request overlaps the request under observation
     mdib = world.mdib
     # some context states to start with
     for h in mdibops.catalog(mdib)['context'][:2]:
@@ -199,6 +200,8 @@ def w_explore(ctx: core.Ctx, arg):
             combos = [(k,) for k in inj_kinds]
             if arg['pairs']:
                 combos += [(a, b) for a in inj_kinds for b in inj_kinds if a != b]
+            # a transaction followed by a complete request of ANOTHER client (same kind): the handlers are shared by all request threads
+            combos += [(a, 'other_get') for a in inj_kinds if a in ('req_state', 'ctx_new', 'descr_update', 'descr_create')]
             for combo in combos:
                 n = next(counter)
                 inj = _injections(cat, handles, n)
@@ -209,6 +212,12 @@ def w_explore(ctx: core.Ctx, arg):
                     if _seen['i'] != _pi:
                         return
                     for k in _combo:
+                        if k == 'other_get':
+                            other = _issue(consumer2, kind, handles)
+                            ctx.count('explore.injected.other_get')
+                            check_response(ctx, hist, kind, handles, other, {'request': [kind, handles], 'schedule': 'nested request of a second client',
+                                                                           'mdib_file': mdib_file}, mds_handles)
+                            continue
                         op = dict(_inj[k])
                         op['seed'] = rng.randrange(1 << 30)
                         ap = mdibops.apply_op(mdib, op, None)
